@@ -4,9 +4,12 @@ import (
 	"fmt"
 	"time"
 
+	"github.com/mycoria/mycoria/config"
 	"github.com/mycoria/mycoria/frame"
+	"github.com/mycoria/mycoria/m"
 	"github.com/mycoria/mycoria/peering"
 	"github.com/mycoria/mycoria/state"
+	"github.com/mycoria/mycoria/storage"
 )
 
 func init() { register("C03", runC03) }
@@ -321,8 +324,14 @@ func runC03(c *Ctx) error {
 				data := append([]byte(nil), wire[q]...)
 				corrupt := c.Rng.IntN(6) == 0
 				if corrupt {
-					// flip one bit in the protected part (message area): the AEAD must not open
+					// flip one bit in the protected part (message area, or the sequence number itself, which
+					// is authenticated as associated data): the AEAD must not open, and the window stays
+					// as it was whatever the (unauthenticated) sequence number of the forgery says
 					pos := 52 + c.Rng.IntN(len(data)-52)
+					if c.Rng.IntN(2) == 0 {
+						pos = 8 + c.Rng.IntN(4)
+						c.Count("corrupted-sequence-number")
+					}
 					data[pos] ^= 1 << uint(c.Rng.IntN(8))
 				}
 				pf, err := builder.ParseFrame(data, nil, 0)
@@ -474,6 +483,17 @@ func runC03(c *Ctx) error {
 		vs := make([]string, 0, len(h))
 		accepted := map[uint32]bool{}
 		for _, q := range h {
+			// a forgery in between: a copy of some frame with its sequence time moved into the future;
+			// the signature no longer verifies and the timestamp filter must stay as it was (the
+			// model takes no step for it)
+			if c.Rng.IntN(5) == 0 {
+				fd := append([]byte(nil), wire[1+c.Rng.IntN(n)]...)
+				fd[10] = 0xFF
+				c.Count("forged-future-sequence-time")
+				if ff, err := builder.ParseFrame(fd, nil, 0); err == nil && ff.Unseal(s) == nil {
+					c.Violate("signed frame with a changed sequence time was accepted", "signed", map[string]any{"layer": "signed", "history": h})
+				}
+			}
 			pf, err := builder.ParseFrame(append([]byte(nil), wire[q]...), nil, 0)
 			ok := err == nil && pf.Unseal(s) == nil
 			tl = append(tl, fmt.Sprintf("%d%%Z", times[q]))
@@ -577,6 +597,80 @@ func c03FirstUseStorm(c *Ctx) error {
 		}
 	}
 	c.Count("first-use-storm")
+	return c03SessionLookupStorm(c, a, bID)
+}
+
+// c03SessionLookupStorm: the receivers do not share a session handed to them, each looks the
+// sender's session up in the state manager (as every frame handler worker does) at the moment
+// the first frame of a sender without a live session arrives, original and replays at once.
+// There must be ONE session (one replay filter) per sender: every lookup returns the same
+// session and the frame is accepted once.  The storage is the rendezvous storage, so a lookup
+// that is not serialised with the session registration meets a second one half-way.
+func c03SessionLookupStorm(c *Ctx, a *node, bID *m.Address) error {
+	builder := frame.NewFrameBuilder()
+	for r, rounds := 0, c.Pick(4, 12); r < rounds; r++ {
+		rs := newRendezStore(storage.NewMemStorage())
+		b := &node{id: bID, st: state.New(&instStub{id: bID, cfg: &config.Config{}}, rs)}
+		if err := b.st.AddRouter(&a.id.PublicAddress); err != nil {
+			return err
+		}
+		f, err := builder.NewFrameV1(a.id.IP, b.id.IP, frame.RouterPing, nil, []byte{1, 2, 3}, nil)
+		if err != nil {
+			return err
+		}
+		f.SetTTL(0)
+		f.SetSequenceTime(time.Now())
+		if err := f.SignRaw(a.id.PrivateKey); err != nil {
+			return err
+		}
+		f.SetTTL(32)
+		d, _ := f.FrameDataWithMargins(0, 0)
+		data := append([]byte(nil), d...)
+		f.ReturnToPool()
+		workers := 2 + r%3
+		type out struct {
+			s  *state.Session
+			ok bool
+		}
+		start := make(chan struct{})
+		res := make(chan out, workers)
+		rs.arm(true)
+		for w := 0; w < workers; w++ {
+			go func() {
+				cp := append([]byte(nil), data...)
+				pf, err := builder.ParseFrame(cp, nil, 0)
+				<-start
+				s := b.st.GetSession(a.id.IP)
+				if err != nil || s == nil {
+					res <- out{s, false}
+					return
+				}
+				res <- out{s, pf.Unseal(s) == nil}
+			}()
+		}
+		close(start)
+		acc := 0
+		sessions := map[*state.Session]bool{}
+		for w := 0; w < workers; w++ {
+			o := <-res
+			sessions[o.s] = true
+			if o.ok {
+				acc++
+			}
+		}
+		rs.arm(false)
+		c.Eval()
+		c.Count("session-lookup-storm")
+		rep := map[string]any{"accepted": acc, "sessions": len(sessions), "workers": workers, "round": r}
+		if len(sessions) != 1 || acc > 1 {
+			c.Violate(fmt.Sprintf("%d concurrent session lookups for one sender without a live session returned %d different sessions; the same signed frame was accepted %d times", workers, len(sessions), acc), "session-lookup-race", rep)
+			break
+		}
+		if acc != 1 {
+			c.Violate("a valid first signed frame was accepted by none of the concurrent receivers", "signed-first-use-lost", rep)
+			break
+		}
+	}
 	return nil
 }
 
